@@ -1,7 +1,7 @@
 """C10 worker: runs real pyanalyze on a plan of programs inside ONE process and
 prints the rendered diagnostics of every step.
 
-stdin  : JSON {"programs": {name: source}, "plan": [name, ...],
+stdin  : JSON {"programs": {name: source}, "plan": [name | "lib:<name>", ...], "libs": {module name: source},
                "shared_checker": bool, "perturb": int, "unit": bool, "unit_cases": [...]}
 stdout : last line `@@JSON <doc>`; doc["runs"][i] = rendered diagnostics of plan[i]
          (list of [code, lineno, col, message] in emission order) or {"crash": text}.
@@ -38,7 +38,7 @@ def make_module(code_str, name, extra_scope):
 _COUNTER = [0]
 
 
-def check_one(src, checker=None):
+def check_one(src, checker=None, existing_module=None):
     """Check one source text; returns list of [code, lineno, col, message]."""
     from pyanalyze.error_code import DISABLED_IN_TESTS, ErrorCode
     from pyanalyze.name_check_visitor import ClassAttributeChecker
@@ -47,7 +47,7 @@ def check_one(src, checker=None):
     _COUNTER[0] += 1
     name = f"c10mod_{_COUNTER[0]}"
     tree = ast.parse(src, "<test input>")
-    mod = make_module(src, name, {})
+    mod = existing_module if existing_module is not None else make_module(src, name, {})
     kwargs = {"settings": {code: code not in DISABLED_IN_TESTS for code in ErrorCode}}
     if checker is not None:
         kwargs["checker"] = checker
@@ -65,59 +65,91 @@ def check_one(src, checker=None):
         msg = re.sub(r"c10mod_\d+", "<MOD>", msg)
         msg = re.sub(r" at 0x[0-9a-fA-F]+", " at 0x?", msg)
         out.append([getattr(code, "name", str(code)), f.get("lineno"), f.get("col_offset"), msg])
-    del sys.modules[name]
+    if existing_module is None:
+        del sys.modules[name]
     return out
+
+
+TYPES = [int, str, bytes, float, list, dict, tuple, set]
+
+
+def _atoms():
+    from pyanalyze.value import KnownValue, TypedValue
+
+    return [KnownValue(1), KnownValue("a"), KnownValue(None), TypedValue(int), TypedValue(str), KnownValue(2.5),
+            KnownValue(b"x"), TypedValue(bytes), KnownValue("zz"), TypedValue(float)]
 
 
 def unit_cases(cases):
-    """Direct calls of the modelled consumers (for the model correspondence).
-    case kinds:
-      ["unite", [codes]]          -> text of unite_values over KnownValue/TypedValue atoms
-      ["extra_kwargs", [names]]   -> message of the unexpected-keyword error
-      ["or_constraint", [codes]]  -> member order of the one_of constraint built by OrConstraint.apply
+    """Direct calls of the modelled consumers (model correspondence).
+      ["unite", [[codes], ...]]            -> member codes of unite_values(*[unite_values(*g) for g in groups])
+      ["extra_kwargs", [params, keywords]] -> names listed by the unexpected-keyword message, in order
+      ["or_constraint", [codes]]           -> member codes of the one_of constraint built by OrConstraint.apply
     """
-    from pyanalyze.value import KnownValue, TypedValue, unite_values
-
-    atoms = [KnownValue(1), KnownValue("a"), KnownValue(None), TypedValue(int), TypedValue(str), KnownValue(2.5),
-             KnownValue(b"x"), TypedValue(bytes), KnownValue(True), TypedValue(float)]
     out = []
     for kind, arg in cases:
-        if kind == "unite":
-            out.append(str(unite_values(*[atoms[i % len(atoms)] for i in arg])))
-        elif kind == "extra_kwargs":
-            out.append(_extra_kwargs_message(arg))
-        elif kind == "or_constraint":
-            out.append(_or_constraint_order(arg))
-        else:
-            out.append(None)
+        try:
+            if kind == "unite":
+                out.append(_unite(arg))
+            elif kind == "extra_kwargs":
+                out.append(_extra_kwargs(arg[0], arg[1]))
+            elif kind == "or_constraint":
+                out.append(_or_constraint_order(arg))
+            else:
+                out.append(None)
+        except Exception as ex:  # noqa
+            out.append({"crash": f"{type(ex).__name__}: {ex}"[:300]})
     return out
 
 
-def _extra_kwargs_message(names):
+def _unite(groups):
+    from pyanalyze.value import MultiValuedValue, unite_values
+
+    atoms = _atoms()
+    v = unite_values(*[unite_values(*[atoms[i] for i in g]) for g in groups])
+    vals = v.vals if isinstance(v, MultiValuedValue) else [v]
+    return [atoms.index(x) for x in vals]
+
+
+def _extra_kwargs(params, keywords):
+    import re
+
     from pyanalyze.checker import Checker
-    from pyanalyze.signature import ActualArguments, Signature, _CanAssignBasedContext
+    from pyanalyze.signature import ActualArguments, ParameterKind, Signature, SigParameter, _CanAssignBasedContext
     from pyanalyze.stacked_scopes import Composite
     from pyanalyze.value import KnownValue
 
-    sig = Signature.make([])
-    ctx = _CanAssignBasedContext(Checker())
+    sig = Signature.make([SigParameter(n, ParameterKind.KEYWORD_ONLY) for n in params])
+    errors = []
+
+    class Ctx(_CanAssignBasedContext):
+        def on_error(self, message, **kwargs):
+            errors.append(message)
+
+    ctx = Ctx(Checker())
     actuals = ActualArguments(
-        positionals=[], star_args=None, keywords={n: (False, Composite(KnownValue(1))) for n in names},
+        positionals=[], star_args=None, keywords={n: (True, Composite(KnownValue(1))) for n in keywords},
         star_kwargs=None, kwargs_required=False, pos_or_keyword_params=frozenset(),
     )
     sig.bind_arguments(actuals, ctx)
-    return [str(e) for e in ctx.errors]
+    if not errors:
+        return []
+    if "unexpected keyword" not in errors[0]:
+        return {"crash": errors[0]}
+    return re.findall(r"'(\w+)'", errors[0])
 
 
 def _or_constraint_order(codes):
     from pyanalyze.stacked_scopes import Constraint, ConstraintType, OrConstraint, VarnameWithOrigin
 
     vn = VarnameWithOrigin("x")
-    cons = [Constraint(vn, ConstraintType.is_instance, True, [int, str, bytes, float, list, dict][c % 6]) for c in codes]
+    objs = {c: Constraint(vn, ConstraintType.is_instance, True, TYPES[c]) for c in set(codes)}
+    cons = [objs[c] for c in codes]  # equal code = the very same (identity-hashed) constraint object
     got = list(OrConstraint(tuple(cons)).apply())
     if not got:
         return []
-    return [[int, str, bytes, float, list, dict].index(c.value) for c in got[0].value]
+    members = got[0].value
+    return [TYPES.index(c.value) for c in members]
 
 
 def main():
@@ -140,11 +172,17 @@ def main():
     import contextlib
     import io
 
+    libs = {}
+    for lname, lsrc in req.get("libs", {}).items():
+        libs[lname] = make_module(lsrc, lname, {})  # importable by the programs in every configuration
     for name in req.get("plan", []):
-        src = req["programs"][name]
         try:
             with contextlib.redirect_stderr(io.StringIO()), contextlib.redirect_stdout(io.StringIO()):
-                doc["runs"].append(check_one(src, checker))
+                if name.startswith("lib:"):
+                    lname = name[4:]
+                    doc["runs"].append(check_one(req["libs"][lname], checker, existing_module=libs[lname]))
+                else:
+                    doc["runs"].append(check_one(req["programs"][name], checker))
         except BaseException as ex:  # noqa
             doc["runs"].append({"crash": f"{type(ex).__name__}: {ex}"[:500]})
     if req.get("unit_cases"):
